@@ -1,4 +1,5 @@
 import Ruint.Model.Canon
+import Ruint.Model.Bits
 /-!
 # Model of `src/from.rs` — integer conversions (C07)
 
@@ -11,7 +12,8 @@ and `Uint`↔`Uint` through `overflowing_from_limbs_slice`.
 Primitive integers are `Int`s in the range of their type; an `as` cast to an `N`-bit unsigned type is
 `% 2^N`, to a signed one is `% 2^N` read as two's complement.
 `value & MASK` is `value % (MASK + 1)` (all masks are `2^k - 1`), as in `Ruint.maskTop`.
-`bit_len` (owned by C06) enters as its value-level specification `bitLen (val limbs)`.
+`bit_len` is the limb-level model of C06 (`Ruint.Bits.bitLen`: `BITS - leading_zeros`); its value-level
+meaning `bitLen (val limbs)` is C06's theorem `Bits.bitLen_spec`.
 -/
 namespace Ruint.Conv
 open Ruint Ruint.Canon
@@ -128,7 +130,7 @@ def wrappingFrom (bits : Nat) (t : Prim) (v : Int) : Res :=
 
 /-! ## `Uint` → primitive -/
 
-/-- value-level specification of `Uint::bit_len` (C06): number of significant bits. -/
+/-- value-level meaning of `Uint::bit_len` (C06): number of significant bits. -/
 def bitLen (v : Nat) : Nat := if v = 0 then 0 else Nat.log2 v + 1
 
 /-- `Result<T, FromUintError<T>>`: `Overflow(bits, wrapped, max)` -/
@@ -143,7 +145,7 @@ def limb (l : List Nat) (i : Nat) : Nat := l.getD i 0
 def toInt (t : Prim) (bits : Nat) (l : List Nat) : FromRes :=
   let capacity := if t.signed then t.width - 1 else t.width
   if bits = 0 then .ok 0
-  else if bitLen (val l) > capacity then .overflow bits (castTo t (limb l 0)) t.max
+  else if Bits.bitLen bits l > capacity then .overflow bits (castTo t (limb l 0)) t.max
   else .ok (castTo t (limb l 0))
 
 /-- `TryFrom<&Uint> for i128` / `for u128` (`cap` = 127 / 128) -/
@@ -156,12 +158,12 @@ def toInt128 (t : Prim) (bits : Nat) (l : List Nat) : FromRes :=
     else
       -- `result |= (limbs[1] as i128) << 64`
       let result := castTo t (limb l 0 + W * limb l 1)
-      if bitLen (val l) > capacity then .overflow bits result t.max else .ok result
+      if Bits.bitLen bits l > capacity then .overflow bits result t.max else .ok result
 
 /-- `TryFrom<&Uint> for bool` (values `0`/`1`) -/
 def toBool (bits : Nat) (l : List Nat) : FromRes :=
   if bits = 0 then .ok 0
-  else if bitLen (val l) > 1 then .overflow bits (limb l 0 % 2) 1
+  else if Bits.bitLen bits l > 1 then .overflow bits (limb l 0 % 2) 1
   else .ok (if limb l 0 ≠ 0 then 1 else 0)
 
 def boolT : Prim := ⟨1, false⟩
